@@ -111,8 +111,12 @@ def replay_leg(ctx, q):
     ctx.log("scenarios: %d exhaustive + %d simulated (%d distinct)" % (n_ex, len(sims), len(allscn)))
     scnp = os.path.join(ctx.build, "c09.scn.ndjson")
     outp = os.path.join(ctx.build, "c09.out.ndjson")
+    special = False   # replay of a size-sweep / slow-peer candidate: those drivers are re-run as a whole
     if ctx.replay:
-        allscn = [json.load(open(ctx.replay))["scenario"]["scn"]]
+        rsc = json.load(open(ctx.replay))["scenario"]
+        rscn = rsc["scn"]
+        special = bool(rscn.get("trickle")) or rsc.get("note") == "size sweep" or isinstance(rsc.get("exp"), str)
+        allscn = [] if special else [rscn]
     vf.write_ndjson(scnp, allscn)
     binp = ctx.go_test_bin("internal", ["c09"])
     ctx.run_harness(binp, "TestVerifC09Replay", env=dict(VERIF_SCN=scnp, VERIF_OUT=outp,
@@ -139,7 +143,7 @@ def replay_leg(ctx, q):
             json.dumps(r.get("scn"))[:400]), r)
     # size sweep: the simplest behaviour (complete two-message stream, clean end) for every first-message size in a
     # dense range and around the powers of two - TLC enumerates chunkings, this instantiates sizes
-    if not ctx.replay:
+    if not ctx.replay or special:
         swp = os.path.join(ctx.build, "c09.sweep.ndjson")
         ctx.run_harness(binp, "TestVerifC09Sweep", env=dict(VERIF_OUT=swp, VERIF_DENSE=9000 if q else 70000), timeout=3000)
         sw = vf.read_ndjson(swp)
@@ -155,6 +159,23 @@ def replay_leg(ctx, q):
         ctx.cov["evaluations"] += ssum[0]["evaluations"]
         ctx.cov["traces_validated_against_impl"] += ssum[0]["scenarios"]
         ctx.notes["size_sweep"] = ssum[0]
+        # a peer that is not silent but too slow is stalled as well: the period is a budget for the whole message
+        trk = os.path.join(ctx.build, "c09.trickle.ndjson")
+        ctx.run_harness(binp, "TestVerifC09Trickle", env=dict(VERIF_OUT=trk), timeout=600)
+        tr = vf.read_ndjson(trk)
+        if not any(r.get("summary") for r in tr):
+            raise vf.Machinery("trickle harness wrote no summary")
+        for r in tr:
+            if r.get("summary"):
+                ctx.cov["evaluations"] += r["evaluations"]
+                ctx.cov["traces_validated_against_impl"] += r["scenarios"]
+                continue
+            if r.get("repro", 0) < 3:
+                ctx.notes["unreproduced"] = ctx.notes.get("unreproduced", 0) + 1
+                continue
+            ctx.candidate(dict(variant=r.get("variant"), trickle=True, avail=r["scn"]["avail"], lens=r["scn"]["lens"]),
+                          "framing %s, %s; sizes %s, %d bytes at once, then one byte per 100 ms: observed %s" % (
+                              r.get("variant"), r.get("note"), r["scn"]["lens"], r["scn"]["avail"], json.dumps(r.get("obs"))[:300]), r)
     ctx.cov["evaluations"] += summ["evaluations"]
     ctx.cov["traces_validated_against_impl"] += summ["scenarios"] - summ["stall_skipped"]
     ctx.cov["distinct_nontrivial"] += summ["nontrivial"]
